@@ -77,6 +77,10 @@ def run_matrix(chk, props, deciding, rule, names=None, extra_case=None, post=Non
             continue
         mine = [p for p in r["problems"] if p[0] in props]
         observed = all(r["counts"].get(d, 0) > 0 for d in deciding[:1])
+        unobserved = [d for d in deciding if not r["counts"].get(d, 0)]
+        if unobserved:
+            # per-cell view of the deciding monitors (the totals required at the end are pooled over all cells)
+            chk.extra.setdefault("cells_in_which_a_deciding_monitor_observed_nothing", {})[c["name"]] = unobserved
         chk.case_done(ident=(c["cell"], c["kwargs"].get("seed"), bool(c.get("resume_at"))), nontrivial=observed,
                       sample=dict(case=small, iterations=r.get("iterations"), segments=r.get("segments"), resumed_from=r.get("resumed_from_iteration"),
                                   logZ=r.get("logZ"), populations=r.get("populations"), n_samples=r.get("n_samples"), wall=r.get("wall"))
